@@ -247,7 +247,7 @@ func runHistory(base string, h History) runResult {
 	}
 	pendingFault := "" // first fault of a failed update not yet followed by a successful one
 	restarted := false
-	reloadPending := false // queue mode: a reload sits in the reload queue
+	reloadPending := false      // queue mode: a reload sits in the reload queue
 	reloadAfterFailure := false // a queued reload fired after a failed update not yet followed by a successful one
 	lostReload := ""
 	newInst := true // the instance has not written a configuration yet
